@@ -33,6 +33,7 @@ VOCABS = ["voc", "essay"]
 SID = {n: i + 1 for i, n in enumerate(SCHEMAS)}
 DID = {n: i + 11 for i, n in enumerate(DICTS)}
 VID = {n: i + 31 for i, n in enumerate(VOCABS)}
+OID = {"inc": 1, "inc.custom": 2}   # other config resources (grows on demand)
 
 MUTATION_DRILLS = [
     {"mutation": "ConfigNeedsUpdate: `recorded_time != mtime` became `mtime > recorded_time` (stale only if newer)",
@@ -58,6 +59,7 @@ def initial_state():
     st["dicts"]["ty"] = {"rows": [("子", "zi", 3), ("丑", "chou", 2)]}
     st["schemas"]["w"] = {"dict": "ty", "algebra": ["derive/^z/c/"]}
     st["vocab"]["essay"] = [("子", 9), ("子丑", 4)]
+    st["inc"] = {"algebra": ["derive/^j/g/", "abbrev/^([a-z]).+$/$1/"]}
     return st
 
 
@@ -70,6 +72,8 @@ def sub_loc(st, rel):
     d, base = rel.split("/", 1)
     if base == "default.yaml":
         return (st, "schema_list" if d == "shared" else "user_default")
+    if base == "inc.yaml":
+        return (st, "inc")
     for suffix, shared_key, user_key in ((".schema.yaml", "schemas", "user_schemas"), (".dict.yaml", "dicts", "user_dicts")):
         if base.endswith(suffix):
             return (st.setdefault(shared_key if d == "shared" else user_key, {}), base[:-len(suffix)])
@@ -102,7 +106,19 @@ def random_edit(st, rng, versions=None, files=None):
     the shared files (deleting one makes the older shared file apply again through the fallback resolver)."""
     k = rng.choice(["row", "row", "row", "algebra", "algebra", "custom", "custom", "defcustom", "import", "pack",
                     "list", "vocab", "usevocab", "touch", "noop", "noop",
-                    "restore", "restore", "restore", "usercopy", "usercopy", "usercopy", "usercopy-del", "usercopy-del"])
+                    "restore", "restore", "restore", "usercopy", "usercopy", "usercopy", "usercopy-del", "usercopy-del",
+                    "include", "include", "inc-edit", "inc-edit"])
+    if k == "include":
+        x = rng.choice(sorted(st["schemas"]))
+        st["schemas"][x]["include_algebra"] = not st["schemas"][x].get("include_algebra")
+        return "include-toggle %s" % x
+    if k == "inc-edit":
+        alg = st["inc"]["algebra"]
+        if len(alg) > 1 and rng.random() < 0.4:
+            alg.pop(rng.randrange(len(alg)))
+        else:
+            alg.append("derive/^%s/%s/" % (rng.choice("bdjwyzx"), rng.choice("ptqkcs")))
+        return "inc-edit"
     if k == "restore":
         cands = []
         for rel, vs in sorted((versions or {}).items()):
@@ -257,7 +273,22 @@ def fkind(rel):
     m = re.match(r"(\w+)\.txt$", base)
     if m and m.group(1) in VID:
         return (5, VID[m.group(1)])
+    if base.endswith(".yaml") and not base.endswith(".dict.yaml"):
+        return res_kind(base[:-5])
     return None
+
+
+def res_kind(name):
+    """config resource id (a key of __build_info/timestamps) -> (model kind, id)"""
+    if name == "default":
+        return (0, 0)
+    if name == "default.custom":
+        return (1, 0)
+    if name.endswith(".schema") and name[:-7] in SID:
+        return (2, SID[name[:-7]])
+    if name.endswith(".custom") and name[:-7] in SID:
+        return (3, SID[name[:-7]])
+    return (6, OID.setdefault(name, len(OID) + 1))
 
 
 def pid(name):
@@ -424,13 +455,29 @@ def run_history(ctx, T, rmodel, hid, steps, rng, scratch, stats):
 
         def c(k):
             return str(cur[k]) if k in cur else "-"
-        kd = "%s,%s" % (c((0, 0)), c((1, 0)))
-        lines.append("L %s %s" % (kd, ",".join(str(SID[x]) for x in (lst or []) if x in SID) or "-"))
+        # the resources each compiled config was built from, as the real compiler recorded them in the CLEAN deployment
+        cprobe = T.probe(wsc)
+        depsof = {}
+        for f, (kind, what) in cprobe.items():
+            if kind == "yaml" and " ts=" in what:
+                ts = what.split(" ts=")[1].split(" ")[0]
+                names = [kv.split("=")[0] for kv in ts.split(",")] if ts != "-" else []
+                tgt = "d" if f == "default.yaml" else (str(SID[f[:-12]]) if f.endswith(".schema.yaml") and f[:-12] in SID else None)
+                if tgt is not None:
+                    depsof[tgt] = [res_kind(nm) for nm in names]
+                    stats["dep_sets"].add((("default" if tgt == "d" else "schema"), tuple(sorted(
+                        re.sub(r"^(t|u|v|w)\.", "<x>.", nm) for nm in names))))
+        for tgt, rl in sorted(depsof.items()):
+            lines.append("P %s %s" % (tgt, ",".join("%d:%d" % r for r in rl) or "-"))
+
+        def key(tgt, default):
+            return ",".join(c(r) for r in depsof.get(tgt, default))
+        lines.append("L %s %s" % (key("d", [(0, 0), (1, 0)]), ",".join(str(SID[x]) for x in (lst or []) if x in SID) or "-"))
         for sname, inf in sorted(infos.items()):
             if sname not in SID:
                 continue
             x = SID[sname]
-            ks = "%s,%s,%s,%s" % (c((0, 0)), c((1, 0)), c((3, x)), c((2, x)))
+            ks = key(str(x), [(0, 0), (1, 0), (3, x), (2, x)])
             lines.append("I %s %s %s %s %s" % (
                 ks, DID.get(inf["dict"], "-") if inf["dict"] else "-", pid(inf["prism"]) if inf["prism"] else "-",
                 ",".join(str(DID[p]) for p in inf["packs"] if p in DID) or "-",
@@ -487,8 +534,9 @@ def run(ctx):
         "dict_file_checksum, so a pack shared by two dictionaries is rebuilt by every deployment, alternately (observed on "
         "the real code - history [..., 'pack-toggle w tp', ..., 'noop'] logs `pack tp rebuild=1` twice - and in the model alike; "
         "same class as the shared prism name, a workspace error, not a finding)",
-        "the resources a compiled config depends on are default, default.custom, <x>.custom, <x>.schema (generated workspaces "
-        "contain no further __include / import_preset); validated against the __build_info/timestamps keys",
+        "deps_closed: the resources the config compiler loads are determined by the contents of the resources it loaded; the "
+        "dependency set of each compiled config is taken from the __build_info/timestamps keys of a clean deployment (the real "
+        "compiler as an external function), including the __include'd third file inc.yaml",
     ]
     res = vlib.proof_stage(ctx)
     proof_ok = res["ok"]
@@ -501,24 +549,8 @@ def run(ctx):
     scratch = ctx.scratch("c12")
     rng = random.Random(ctx.seed * 7919 + 12)
     nh, steps = (30, 16) if ctx.tier == "quick" else (100, 40)
-    stats = {"edits": {}, "deploys": 0, "log_lines": 0, "decisions": {}, "noop_steps": 0, "nonmonotonic": 0, "shadowed_files": 0}
+    stats = {"edits": {}, "deploys": 0, "log_lines": 0, "decisions": {}, "noop_steps": 0, "nonmonotonic": 0, "shadowed_files": 0, "dep_sets": set()}
     samples = []
-    # validate the dependency hypothesis once on a clean deployment
-    ws0 = os.path.join(scratch, "deps")
-    deplib.materialise(ws0, initial_state())
-    T.deploy(ws0)
-    pr = T.probe(ws0)
-    want_keys = {"default.yaml": {"default", "default.custom"}}
-    for f, (kind, what) in pr.items():
-        if kind == "yaml" and "ts=" in what:
-            ts = what.split("ts=")[1].split(" ")[0]
-            keys = {kv.split("=")[0] for kv in ts.split(",")} if ts != "-" else set()
-            x = f[:-len(".schema.yaml")] if f.endswith(".schema.yaml") else None
-            want = want_keys.get(f) or {"default", "default.custom", "%s.custom" % x, "%s.schema" % x}
-            if keys != want:
-                ctx.violation("deps-hypothesis:" + f, "the resources recorded in __build_info/timestamps are not those of the model",
-                              {"file": f, "recorded": sorted(keys), "model": sorted(want)}, found_input=False)
-    shutil.rmtree(ws0, ignore_errors=True)
     seen = set()
     for h in range(nh):
         hist, fails, st = run_history(ctx, T, rmodel, h, steps, rng, scratch, stats)
@@ -548,6 +580,7 @@ def run(ctx):
         "rule": "one evaluation = one (edit, incremental deploy, clean deploy, model step); non-trivial = distinct edit kinds "
                 "exercised plus distinct (decision kind, rebuild|keep) outcomes observed in the real decision log, counted",
         "edit_distribution": stats["edits"], "decision_distribution": stats["decisions"], "noop_steps": stats["noop_steps"],
+        "dependency_sets_observed": sorted([k, list(v)] for k, v in stats["dep_sets"]),
         "restores_with_earlier_mtime": stats["nonmonotonic"], "deploys_with_shadowing_user_copy": stats["shadowed_files"],
         "decision_log_lines_compared": stats["log_lines"], "samples": samples, "exhaustive": False,
         "mutation_drills": MUTATION_DRILLS,
